@@ -102,7 +102,8 @@ class RefTarget:
             if session != 0:
                 self.audit("C11", "register.session", f"session {session:#x} in RegisterSession request")
             if self.session_policy == "refuse":
-                return self.enc_header(cmd, 4, 0, self.cfg.get("session_refuse_status", 0x01), ctx) + b"\x01\x00\x00\x00"
+                # a refusal carries a non-zero status; the session field of such a reply is meaningless (may be non-zero)
+                return self.enc_header(cmd, 4, self.cfg.get("session_refuse_handle", 0), self.cfg.get("session_refuse_status", 0x01), ctx) + b"\x01\x00\x00\x00"
             self.registered = True
             return self.enc_header(cmd, 4, self.session_handle, 0, ctx) + b"\x01\x00\x00\x00"
 
@@ -131,7 +132,9 @@ class RefTarget:
                     self.audit("C11", "session.mismatch", f"session {session:#x}, granted {self.session_handle:#x}")
                 elif session != 0:
                     self.audit("C11", "session.stale", f"session {session:#x} used while no session is registered")
-                return self.enc_header(cmd, 0, session, 0x64, ctx)
+                if not self.cfg.get("lenient_session"):
+                    return self.enc_header(cmd, 0, session, 0x64, ctx)
+                # a lenient device serves the request anyway, which shows what the client goes on to do
             try:
                 items = self._parse_cpf(cmd, body)
             except ValueError as e:
@@ -455,6 +458,7 @@ class RefPLC(RefTarget):
         self.wall_clock = cfg.get("wall_clock", 1_600_000_000_000_000)
         self.svc_log = []                              # executed tag services
         self.read_xfers = {}                           # (path bytes, count) -> bytes returned so far
+        self.empty_served = set()
         self.write_xfers = []                          # fragmented write fragments in order
         self.by_instance = {}
         for t in self.project.data["tags"]:
@@ -735,6 +739,10 @@ class RefPLC(RefTarget):
             elif not fragmented:
                 chunk = 0
         key = (rec["path"], count)
+        if fragmented and offset == 0 and remaining > 0 and self.cfg.get("empty_first_fragment") and key not in self.empty_served:
+            # a busy target may answer the first fragment request with "partial transfer" and no data yet
+            self.empty_served.add(key)
+            chunk = 0
         if fragmented:
             if offset == 0:
                 self.read_xfers[key] = 0
